@@ -191,6 +191,11 @@ def rules(ctx, tab, tag=""):
                 ctx.ob("R3" + tag, lab + "/ended-same-frame", r.final == "Ended",
                        "position >= total duration => Ended in this frame; final state %s" % r.final, site, trace_of(p),
                        what="ended-delayed")
+            if r.final != "Ended":
+                # fail closed: a frame may leave the animator un-ended only if it has established position < duration
+                ctx.ob("R3" + tag, lab + "/not-ended-only-before-duration", r.ge_duration == 0,
+                       "a frame may leave the animator in %s only if it has established position < total duration "
+                       "(pos>=duration decided: %s)" % (r.final, r.ge_duration), site, trace_of(p), what="end-test-missing")
             if r.ge_duration == 0:
                 ctx.ob("R3" + tag, lab + "/never-ended-early", "Ended" not in stored,
                        "Ended must not be stored while position < total duration", site, trace_of(p), what="ended-early")
